@@ -394,6 +394,8 @@ H("conn_handle_packet_tail_native", ["C08"], "replay-only", "connection::handle_
   [("x", "u8")], 4, [], ["Connection::handle_packet"], "native replay body of E2 slice query e2_handle_packet_tail")
 H("conn_retry_native", ["C14", "C04", "C12"], "replay-only", "connection::retry_native",
   [("valid", "bool"), ("authed_before", "u8")], 4, [], ["Connection::process_decrypted_packet (Retry arm)"], "native replay body of E2 slice queries e2_retry_acceptance_slice / e2_retry_resets_initial_space_slice")
+H("conn_black_hole_datagrams_native", ["C16", "C13"], "replay-only", "connection::black_hole_datagrams_native",
+  [("x", "u8")], 4, [], ["Connection::detect_lost_packets", "MtuDiscovery::black_hole_detected", "DatagramState::drop_oversized"], "native replay body of E2 slice query e2_black_hole_purges_datagrams_slice")
 H("conn_peer_params_cid_auth_native", ["C14", "C04"], "replay-only", "connection::peer_params_cid_auth_native",
   [("server", "bool"), ("which", "u8")], 4, [], ["Connection::handle_peer_params"], "native replay body of E2 query e2_peer_params_cid_auth")
 
